@@ -15,7 +15,7 @@ fn bases() -> &'static Vec<(Enc, Vec<u8>)> {
             v.push((enc, elfw::enc_bytes(enc, |w| h.write(w))));
         }
         // richer files: search fixed seeds until each encoding has one that opens with sections
-        let o = RichOpts { override_chance: 0, corrupt_chance: 0, max_gap: 8, tables_early: false, allow_compressed: false, max_names: 5, shrink_chance: 0 };
+        let o = RichOpts { override_chance: 0, corrupt_chance: 0, max_gap: 8, tables_early: false, allow_compressed: false, max_names: 5, shrink_chance: 0, many_sections: false };
         for enc in ALL_ENC {
             let mut seed = 1u64;
             loop {
@@ -178,7 +178,7 @@ fn digest_vec<E: EndianParse>(f: &elf::ElfBytes<'_, E>, plan: &[queries::Q]) -> 
 /// AnyEndian vs the matching fixed spec over generated (and mildly corrupted) files.
 fn oracle_equiv(case: &[u8], obs: &mut Obs) -> Result<(), String> {
     let mut c = Choice::new(case);
-    let o = RichOpts { override_chance: 60, corrupt_chance: 40, max_gap: 16, tables_early: false, allow_compressed: true, max_names: 6, shrink_chance: 30 };
+    let o = RichOpts { override_chance: 60, corrupt_chance: 40, max_gap: 16, tables_early: false, allow_compressed: true, max_names: 6, shrink_chance: 30, many_sections: false };
     let r = filegen::rich_file(&mut c, &o);
     let data = &r.built.bytes;
     let le_file = data.get(5) == Some(&1);
@@ -207,6 +207,18 @@ fn oracle_equiv(case: &[u8], obs: &mut Obs) -> Result<(), String> {
             obs.label("rejected_by_other_spec");
         }
         Err(_) => {}
+    }
+    // the byte-order gate looks at EI_DATA and nothing else: whatever the rest of the file holds, a spec whose set
+    // contains the file's EI_DATA never reports UnsupportedElfEndianness, and the error always carries EI_DATA
+    if data.len() > 5 {
+        let d = data[5];
+        for (name, res, in_set) in [("AnyEndian", any.as_ref().map(|_| ()), d == 1 || d == 2), ("LittleEndian", le.as_ref().map(|_| ()), d == 1), ("BigEndian", be.as_ref().map(|_| ()), d == 2), ("NativeEndian", nat.as_ref().map(|_| ()), d == if cfg!(target_endian = "little") { 1 } else { 2 })] {
+            if let Err(ParseError::UnsupportedElfEndianness(b)) = res {
+                if in_set || *b != d {
+                    return Err(format!("a {}-byte file with EI_DATA={} is refused by the {} spec with UnsupportedElfEndianness({})", data.len(), d, name, b));
+                }
+            }
+        }
     }
     let mut sections = 0;
     if let Ok(fa) = &any {
@@ -240,7 +252,7 @@ pub fn property() -> Property {
     Property {
         id: "C10",
         level: "exploration",
-        rule: "ident: exhaustive - 8 base files (a bare header and a richer generated file for each class x order) with EI_DATA, EI_CLASS, EI_VERSION each set to all 256 values, every single-byte magic corruption (bare headers; a sixteenth of them on the rich files) and 24 pseudo-random 4-byte magics, x {LittleEndian, BigEndian, AnyEndian, NativeEndian} x {ElfBytes::minimal_parse, ElfStream::open_stream (reader cursor initially at 0, 4 or 16), file::parse_ident}; with exactly one defect the expected result is UnsupportedElfEndianness(b) / UnsupportedElfClass(b) / UnsupportedVersion((b,_)) / BadMagic(found bytes) carrying the bytes found, LE accepts only 1, BE only 2, Any both, Native = host order; combinations with two defects or another valid value are skipped (counted). equiv: generated files (40% with overrides/corruption): opens under AnyEndian iff under the matching fixed spec, then the full query-digest vector (headers, section data, typed views, names, symbol tables, dynamic, hash lookups, version queries) is identical; the other fixed spec rejects with UnsupportedElfEndianness(EI_DATA). Non-trivial: an ident case expected to be rejected, or an equivalence case that opened with at least one section.",
+        rule: "ident: exhaustive - 8 base files (a bare header and a richer generated file for each class x order) with EI_DATA, EI_CLASS, EI_VERSION each set to all 256 values, every single-byte magic corruption (bare headers; a sixteenth of them on the rich files) and 24 pseudo-random 4-byte magics, x {LittleEndian, BigEndian, AnyEndian, NativeEndian} x {ElfBytes::minimal_parse, ElfStream::open_stream (reader cursor initially at 0, 4 or 16), file::parse_ident}; with exactly one defect the expected result is UnsupportedElfEndianness(b) / UnsupportedElfClass(b) / UnsupportedVersion((b,_)) / BadMagic(found bytes) carrying the bytes found, LE accepts only 1, BE only 2, Any both, Native = host order; combinations with two defects or another valid value are skipped (counted). equiv: generated files (40% with overrides/corruption): opens under AnyEndian iff under the matching fixed spec, then the full query-digest vector (headers, section data, typed views, names, symbol tables, dynamic, hash lookups, version queries) is identical; the other fixed spec rejects with UnsupportedElfEndianness(EI_DATA); no spec whose set contains EI_DATA ever reports UnsupportedElfEndianness, whatever the rest of the file holds (header fields overridden with boundary, byte-swapped and raw values). Non-trivial: an ident case expected to be rejected, or an equivalence case that opened with at least one section.",
         assumptions: &["little-endian host for the NativeEndian clause"],
         subs: vec![Sub::enumerated("ident", oracle_ident, enum_ident, true), Sub::new("equiv", oracle_equiv, 1400, 600_000, 20_000_000).shrink(1500)],
         extras: vec![crate::fuzz::c10_choice],
